@@ -3,7 +3,11 @@ from workloads.isolation_fuzz import FuzzRun
 
 PROPERTY = 'C13'
 LEVEL = 'exploration'
-RULE = ('family fuzz (L2): one real instance and 1-3 scripted peers; randomised schedule of peer TICKs, process / '
+RULE = ('family history (L3): real clusters with auto_fence, partitions / one-way cuts / crashes / restarts and an '
+        'option mismatch on one instance in a third of the cases - permanence, silence (no XML-RPC to an isolated peer '
+        'after one tick), reciprocity at the handshake (static strategies, peer that has had the observer ISOLATED '
+        'since before the CHECKING phase), forged messages attributed to isolated peers leave the snapshot unchanged; '
+        'family fuzz (L2): one real instance and 1-3 scripted peers; randomised schedule of peer TICKs, process / '
         'state / added / removed / disability / statistics publications, handshakes answered by the scripted peer '
         '(reports the local instance RUNNING / ISOLATED / other, same or different strategies, refuses, slow), proxy '
         'steps chosen one message at a time, duplicated / stale / forged IDENTIFICATION, AUTHORIZATION (4 codes), '
